@@ -9,6 +9,7 @@
 // (displayRoute()) on a 2^-10 lattice plus exactness flags, and the vertex ids.
 #include "vtrace.h"
 #include <fstream>
+#include <map>
 #include "libavoid/libavoid.h"
 #include "libvpsc/assertions.h"
 using namespace Avoid;
@@ -132,6 +133,108 @@ static int scenesMode(const char *inFile, const char *outFile, const char *chunk
     return 0;
 }
 
+// ---------------------------------------------------------------------------
+// API histories (C06): "mode P nconn nops ops..." per line; ops as generated by RouterApiMC:
+//   1 s x1 y1 x2 y2 (new ShapeRef)  2 s dx dy (moveShape)  3 s (deleteShape)  4 c end x y (set endpoint)
+//   5 (processTransaction)  6 b (setTransactionUse)
+// Connector 1 starts as (1,7)->(13,7), connector 2 as (7,1)->(7,13).
+static void histStep(vt::J &j, int opIndex, Router *router, std::map<int, ShapeRef *> &shapes, std::vector<ConnRef *> &conns,
+                     std::vector<std::pair<Point, Point> > &ends, int mode, int P)
+{
+    j.obj().k("op").i(opIndex).k("scene").arr();
+    for (auto &kv : shapes) {
+        Box bb = kv.second->polygon().offsetBoundingBox(0);
+        j.arr().i(kv.first).i(llround(bb.min.x)).i(llround(bb.min.y)).i(llround(bb.max.x)).i(llround(bb.max.y)).end();
+    }
+    j.end();
+    // a fresh router for the same final scene
+    Router *fresh = new Router(mode ? OrthogonalRouting : PolyLineRouting);
+    fresh->setRoutingParameter(segmentPenalty, P);
+    for (auto &kv : shapes) { Polygon pc = kv.second->polygon(); new ShapeRef(fresh, pc); }
+    std::vector<ConnRef *> fc;
+    for (auto &e : ends) fc.push_back(new ConnRef(fresh, ConnEnd(e.first), ConnEnd(e.second)));
+    fresh->processTransaction();
+    // remember the routes, run a transaction that changes nothing, compare bit for bit
+    std::vector<std::vector<Point> > before, beforeD;
+    for (auto c : conns) { before.push_back(c->route().ps); beforeD.push_back(c->displayRoute().ps); }
+    router->processTransaction();
+    bool same = true;
+    for (size_t i = 0; i < conns.size(); i++) {
+        const std::vector<Point> &a = conns[i]->route().ps, &b = conns[i]->displayRoute().ps;
+        if (a.size() != before[i].size() || b.size() != beforeD[i].size()) { same = false; continue; }
+        for (size_t k = 0; k < a.size(); k++) if (a[k].x != before[i][k].x || a[k].y != before[i][k].y) same = false;
+        for (size_t k = 0; k < b.size(); k++) if (b[k].x != beforeD[i][k].x || b[k].y != beforeD[i][k].y) same = false;
+    }
+    j.k("noopSame").b(same).k("conns").arr();
+    for (size_t i = 0; i < conns.size(); i++) {
+        j.obj().k("src").arr().i(llround(ends[i].first.x)).i(llround(ends[i].first.y)).end()
+               .k("dst").arr().i(llround(ends[i].second.x)).i(llround(ends[i].second.y)).end();
+        routeJson(j, "raw", conns[i]->route(), false);
+        routeJson(j, "disp", conns[i]->displayRoute(), false);
+        routeJson(j, "fraw", fc[i]->route(), false);
+        j.k("exact").b(exact(conns[i]->route()) && exact(fc[i]->route()));
+        j.end();
+    }
+    j.end().end();
+    delete fresh;
+}
+
+static int histMode(const char *inFile, const char *outFile)
+{
+    std::ifstream in(inFile);
+    vt::Out out(outFile);
+    out.line(std::string("{\"LS\":1024,\"hists\":["));
+    int mode, P, nconn, nops; bool first = true;
+    while (in >> mode >> P >> nconn >> nops) {
+        std::vector<std::vector<int> > ops(nops);
+        for (auto &o : ops) {
+            int t; in >> t; o.push_back(t);
+            int n = t == 1 ? 5 : t == 2 ? 3 : t == 3 ? 1 : t == 4 ? 4 : t == 5 ? 0 : 1;
+            for (int k = 0; k < n; k++) { int v; in >> v; o.push_back(v); }
+        }
+        vt::J j; j.obj().k("mode").i(mode).k("P").i(P).k("ops").arr();
+        for (auto &o : ops) j.ints(o);
+        j.end();
+        bool thrown = false; std::string what;
+        Router *router = new Router(mode ? OrthogonalRouting : PolyLineRouting);
+        router->setRoutingParameter(segmentPenalty, P);
+        std::map<int, ShapeRef *> shapes;
+        std::vector<ConnRef *> conns;
+        std::vector<std::pair<Point, Point> > ends;
+        ends.push_back(std::make_pair(Point(1, 7), Point(13, 7)));
+        if (nconn > 1) ends.push_back(std::make_pair(Point(7, 1), Point(7, 13)));
+        bool txn = true;
+        j.k("steps").arr();
+        try {
+            for (auto &e : ends) conns.push_back(new ConnRef(router, ConnEnd(e.first), ConnEnd(e.second)));
+            router->processTransaction();
+            for (size_t i = 0; i < ops.size(); i++) {
+                const std::vector<int> &o = ops[i];
+                bool processed = false;
+                switch (o[0]) {
+                    case 1: { Rectangle rc(Point(o[2], o[3]), Point(o[4], o[5])); shapes[o[1]] = new ShapeRef(router, rc); processed = !txn; break; }
+                    case 2: router->moveShape(shapes.at(o[1]), o[2], o[3]); processed = !txn; break;
+                    case 3: router->deleteShape(shapes.at(o[1])); shapes.erase(o[1]); processed = !txn; break;
+                    case 4: if (o[2] == 0) { conns.at(o[1] - 1)->setSourceEndpoint(ConnEnd(Point(o[3], o[4]))); ends[o[1] - 1].first = Point(o[3], o[4]); }
+                            else { conns.at(o[1] - 1)->setDestEndpoint(ConnEnd(Point(o[3], o[4]))); ends[o[1] - 1].second = Point(o[3], o[4]); }
+                            processed = !txn; break;
+                    case 5: router->processTransaction(); processed = true; break;
+                    case 6: txn = o[1] != 0; router->setTransactionUse(txn); break;
+                }
+                if (processed) histStep(j, (int)i + 1, router, shapes, conns, ends, mode, P);
+            }
+        } catch (vpsc::CriticalFailure &f) { thrown = true; what = f.what(); }
+        catch (std::exception &e) { thrown = true; what = e.what(); }
+        j.end().k("thrown").b(thrown);
+        if (thrown) j.k("what").s(what);
+        j.end();
+        out.line((first ? "" : ",") + j.out); first = false;
+        if (!thrown) delete router;
+    }
+    out.line(std::string("]}"));
+    return 0;
+}
+
 namespace Avoid { int bends(const Point &curr, unsigned int currDir, const Point &dest, unsigned int destDir); }
 
 // every relative position (non-coincident) x travel direction x entry direction of the real estimator
@@ -154,6 +257,7 @@ static int bendsMode(const char *outFile)
 int main(int argc, char **argv)
 {
     if (argc >= 3 && std::string(argv[1]) == "bends") return bendsMode(argv[2]);
+    if (argc >= 4 && std::string(argv[1]) == "hist") return histMode(argv[2], argv[3]);
     if (argc >= 4 && std::string(argv[1]) == "scenes") return scenesMode(argv[2], argv[3], argc > 4 ? argv[4] : "20");
     return 2;
 }
